@@ -25,9 +25,12 @@ type Config struct {
 	MaxAlloc        int
 	MaxConcretize   int
 	MapOrder        string // all | rot | two | one
+	PoolOrder       string // "" (a Get may return any pooled item or none) | lifo
 	Realloc         string // exact | double | both
 	Preempt         int    // -1 unbounded
 	PoolDrops       bool
+	MaxThreads      int  // 0: 12
+	SchedFixed      bool // no scheduling choices: the running thread continues, else the enabled thread with the lowest id (scale runs)
 	NoRace          bool
 	ConcretizeIdx   bool
 	MaxPaths        int
@@ -203,10 +206,13 @@ func (w *Worker) RunPath(entry *ssa.Function, prefix []Dec) (r *Run) {
 	if w.runs%400 == 0 || w.sol.dead {
 		w.restartSolver()
 	}
-	r = &Run{w: w, eng: w.eng, tt: w.tt, prefix: prefix, atoms: map[int]bool{}, inputOcc: map[string]int{},
+	r = &Run{maxT: maxThreads, w: w, eng: w.eng, tt: w.tt, prefix: prefix, atoms: map[int]bool{}, inputOcc: map[string]int{},
 		chooses: map[string]int64{}, covers: map[string]bool{}, globals: map[*ssa.Global]*Slot{},
 		pools: map[*Slot]*poolModel{}, cuts: map[string]bool{}, mutexes: map[*Slot]*mutexState{},
 		timerBySlot: map[*Slot]*timerEnv{}, ordS: newOrdGraph(true), ordU: newOrdGraph(false)}
+	if w.eng.cfg.MaxThreads > 0 {
+		r.maxT = w.eng.cfg.MaxThreads
+	}
 	w.pr.Reset()
 	w.sol.Push()
 	defer func() {
